@@ -66,8 +66,14 @@ func verifStubConvertError(f *fs.File, err error) kit.Error {
 
 // refTrivia accepts exactly: blanks, line ends, '#' comments to the end of the
 // line, '###' block comments, and the annotation delimiters // /* */.
-func refTrivia(g []byte) bool {
+func refTrivia(g []byte, afterAnnotation bool) bool {
 	i := 0
+	if afterAnnotation && len(g) > 0 && g[0] == '#' {
+		// a '#' that ends an annotation always starts a line comment
+		for i < len(g) && g[i] != '\n' && g[i] != '\r' {
+			i++
+		}
+	}
 	for i < len(g) {
 		c := g[i]
 		switch {
@@ -156,6 +162,7 @@ func VerifH_NextTotal() {
 	file := fs.NewFile("f.jst", data)
 	s := NewJApiScanner(file)
 	prevEnd := -1
+	prevAnnotation := false
 	count := 0
 	for {
 		lex, je := s.Next()
@@ -177,7 +184,8 @@ func VerifH_NextTotal() {
 		if !(b <= e+1 && e < len(data) && b <= len(data) && b > prevEnd) {
 			return
 		}
-		verifrt.Assert("C14.gap.trivia", refTrivia(data[prevEnd+1:b]))
+		verifrt.Assert("C14.gap.trivia", refTrivia(data[prevEnd+1:b], prevAnnotation))
+		prevAnnotation = lex.Type() == Annotation
 		switch lex.Type() {
 		case Keyword:
 			_, err := directive.NewDirectiveType(string(lex.Value()))
@@ -199,7 +207,7 @@ func VerifH_NextTotal() {
 			prevEnd = e
 		}
 	}
-	verifrt.Assert("C14.tail.trivia", refTrivia(data[prevEnd+1:]))
+	verifrt.Assert("C14.tail.trivia", refTrivia(data[prevEnd+1:], prevAnnotation))
 	verifrt.Reach("C14.scan.accepted-nonempty", count > 0)
 }
 
